@@ -194,6 +194,15 @@ func C17(run *mon.Run) {
 				cases = append(cases, spockCase{"left-length", b, base2}, spockCase{"right-length", base1, b})
 			}
 			cases = append(cases, spockCase{"left-nil", nil, base2}, spockCase{"right-nil", base1, nil})
+			// two wrong lengths that compensate each other: the concatenation of the two arguments is the
+			// concatenation of an honest pair, cut somewhere else than at byte 48
+			{
+				cat := append(append([]byte{}, base1...), base2...)
+				for _, cut := range []int{0, 1, 17, 24, 47, 49, 72, 80, 95, 96} {
+					cases = append(cases, spockCase{"compensating-lengths", cat[:cut:cut], cat[cut:]})
+				}
+				cases = append(cases, spockCase{"compensating-lengths", nil, cat}, spockCase{"compensating-lengths", cat, nil})
+			}
 			nflip := 24
 			if pi < run.Pick(2, 10) {
 				nflip = 384
